@@ -100,7 +100,7 @@ func watchdog(limit time.Duration) {
 			// loop never lets virtual time pass, say) must not take the machine down
 			var ms runtime.MemStats
 			runtime.ReadMemStats(&ms)
-			if ms.HeapAlloc > uint64(envInt("VSIM_MEM_MB", 6144))<<20 {
+			if ms.HeapAlloc > uint64(envInt("VSIM_MEM_MB", 10240))<<20 {
 				fmt.Fprintf(os.Stderr, "VSIM-RESOURCE: heap %d MiB in run index %d: aborting the worker\n", ms.HeapAlloc>>20, vsimCurIdx.Load())
 				os.Exit(5)
 			}
@@ -138,6 +138,11 @@ func TestVsim(t *testing.T) {
 	vsimOut = bufio.NewWriter(f)
 	defer f.Close()
 	debug.SetGCPercent(-1)
+	// The collector stays off (it parks goroutines at allocation-dependent instants) unless a run
+	// allocates beyond the soft limit: then it runs rather than letting one heavy script take
+	// gigabytes per worker.  Such runs are counted (probe gc_ran_during_run); their schedule may
+	// not replay exactly.
+	debug.SetMemoryLimit(envInt("VSIM_SOFT_MEM_MB", 3072) << 20)
 	go watchdog(time.Duration(envInt("VSIM_HANG_S", 20)) * time.Second)
 	dump := os.Getenv("VSIM_DUMP") != ""
 
@@ -220,6 +225,14 @@ func TestVsim(t *testing.T) {
 		vsimRunning.Store(true)
 		res := runScript(t, sc, dump)
 		vsimRunning.Store(false)
+		var ms runtime.MemStats
+		runtime.ReadMemStats(&ms)
+		if ms.NumGC > 0 && i == 0 {
+			if res.Probes == nil {
+				res.Probes = map[string]int{}
+			}
+			res.Probes["gc_ran_during_run"] = int(ms.NumGC)
+		}
 		l := &outLine{Index: idx, Result: res}
 		if !res.OK || os.Getenv("VSIM_KEEP_SCRIPTS") != "" || i < 2 {
 			l.Script = sc
